@@ -824,7 +824,9 @@ def arguments_of_temporaries(fnode):
             while k < len(lst):
                 st = lst[k]
                 call = st.value if isinstance(st, (ast.Assign, ast.Expr, ast.Return)) and isinstance(getattr(st, "value", None), ast.Call) else None
-                if call is None or not is_path(call.func) or any(isinstance(x, ast.Starred) for x in call.args) or any(kw.arg is None for kw in call.keywords):
+                if call is None or not is_path(call.func) or any(isinstance(x, ast.Starred) for x in call.args) or any(kw.arg is None for kw in call.keywords) \
+                        or (isinstance(call.func, ast.Name) and call.func.id in ("divmod", "zip")):
+                    # (divmod / zip keep their named operands: the statement-level synonyms and the row-stream reader want them as written)
                     k += 1
                     continue
                 slots = [("a", i) for i in range(len(call.args))] + [("k", i) for i in range(len(call.keywords))]
